@@ -21,7 +21,7 @@ func (c06) Meta(tier string) engine.Meta {
 	return engine.Meta{
 		Level: "model_checking",
 		Rule: "type-directed enumeration over the effects alphabet: tracer calls tr(i, v) (numbered in source order) and poisoned terms ([0][9], 1 % 0, m[\"absent\"]) in every operand position of if, ?:, &&, ||, user-registered lazy and / or / second / twice, strict calls (+, max, not, id), list / map / object literals, subscripts, their nestings (thunks that call lazy functions), and dynamic calls through strict and lazy function values (callee expression first, then the arguments in order). Oracle: the ordered host-call trace and the outcome class predicted by the reference evaluator (condition once, selected operand only, strict operands once, left to right, key before value), on 4 back ends. non-trivial = at least one tracer and one lazy construct or literal",
-		Bound: "depth 2 in full (quick: one nested operand at depth 2; thorough adds depth 3 with one nested depth-2 operand)",
+		Bound: "depth 1 in full; depth 2 with one nested operand (thorough: over all three kinds of poison, plus two nested operands of every unary / binary constructor)",
 		Assumptions: []string{"host functions observe evaluation only through their own invocation; twice() evaluates its operand two times by definition"},
 	}
 }
@@ -131,7 +131,10 @@ func (c06) Generate(tier string, yield func(*engine.Case) bool) {
 			effectsGrammar(true).Each(ty, 1, func(t *gen.Term) bool { return emit("effects", t) })
 		}
 		if tier == "thorough" {
-			g.Each(ty, 2, func(t *gen.Term) bool { return emit("effects2", t) })
+			// one nested operand over the full grammar (all poisons), two nested operands of every
+			// unary / binary constructor over the core grammar (full depth 2 is 5.7e13 programs)
+			g.EachOneDeep(ty, func(t *gen.Term) bool { return emit("effects1", t) })
+			effectsGrammar(false).EachTwoDeep(ty, 2, func(t *gen.Term) bool { return emit("effects2", t) })
 		} else {
 			g.EachOneDeep(ty, func(t *gen.Term) bool { return emit("effects1", t) })
 		}
@@ -149,7 +152,7 @@ func (c06) Generate(tier string, yield func(*engine.Case) bool) {
 			}
 			denv := real.EnvSpec{Rep: "raw", Binds: []real.Binding{
 				{Name: "c", V: ref.BoolV(cv)}, {Name: "i", V: ref.NumV(iv)}, {Name: "n", V: ref.NumV(7)},
-				{Name: "f", V: funs["f"]}, {Name: "g", V: funs["g"]}, {Name: "h2", V: funs["h2"]}, {Name: "lz", V: funs["lz"]},
+				{Name: "f", V: funs["f"]}, {Name: "g", V: funs["g"]}, {Name: "h2", V: funs["h2"]}, {Name: "lz", V: funs["lz"]}, {Name: "lz1", V: funs["lz1"]}, {Name: "lzif", V: funs["lzif"]},
 			}}
 			v, num := gen.VarT, gen.NumT
 			tr := func(x float64) *gen.Term { return trT(num(x)) }
@@ -167,6 +170,12 @@ func (c06) Generate(tier string, yield func(*engine.Case) bool) {
 				gen.DCallT(gen.SubT(gen.ListT(v("lz")), num(0)), tr(5), poison),
 				gen.DCallT(gen.SubT(gen.ListT(v("h2")), num(0)), poison, tr(5)),
 				gen.DCallT(gen.CallT("second", tr(1), v("h2")), tr(2), gen.CallT("twice", tr(3))),
+				gen.DCallT(gen.SubT(gen.ListT(v("lz1")), num(0)), tr(5), poison),
+				gen.DCallT(gen.SubT(gen.ListT(v("lz1"), v("lz")), v("i")), tr(5), tr(6)),
+				gen.DCallT(gen.CallT("if", v("c"), v("lz1"), v("lz")), tr(1), poison),
+				gen.DCallT(gen.SubT(gen.ListT(v("lzif")), num(0)), trT(v("c")), tr(7), tr(8)),
+				gen.DCallT(gen.SubT(gen.ListT(v("lzif")), num(0)), v("c"), tr(7), poison),
+				gen.DCallT(gen.SubT(gen.ListT(v("lzif")), num(0)), gen.Prefix("!", v("c")), poison, gen.DCallT(gen.SubT(gen.ListT(v("lz1")), num(0)), tr(1), tr(2))),
 				gen.DCallT(gen.CallT("tr", num(0), v("f")), gen.DCallT(gen.CallT("tr", num(0), v("g")), tr(9))),
 			} {
 				n := 0
